@@ -1492,7 +1492,14 @@ pub fn watch(w: &WatchIn<'_>, cfg: &StuckCfg, canary: &Canary) -> (Option<StuckR
     let (enabled, blocked, any_async, any_sync) = (w.model)(&evs);
     let threads = (w.threads)();
     // Kernel view: are the unfinished workers asleep, or merely not getting CPU / spinning?
-    let (parked, parked_detail) = stuck::workers_asleep(25, Duration::from_millis(20));
+    let (parked, parked_detail) = if cfg!(miri) {
+      // Under Miri there is no kernel view of the threads and interpretation is slow enough for 3.6 s without a
+      // completed operation to mean nothing: the Miri slice looks for undefined behaviour, progress verdicts are
+      // left to the native runs.
+      (Some(false), "interpreted by Miri: no progress verdicts".to_string())
+    } else {
+      stuck::workers_asleep(25, Duration::from_millis(20))
+    };
     if parked == Some(false) && std::env::var("VH_GDB").is_ok() {
       // triage aid: where are the runnable threads?
       let pid = std::process::id();
